@@ -46,6 +46,97 @@ def meta_views(w):
     return problems
 
 
+def meta_edit_case(ctx, h, nedits):
+    """metamodel-level views under edit sequences: every view of every class against a recomputation from the primary
+    declarations (eSuperTypes, eStructuralFeatures) after every edit; lookups are made before each edit so that any
+    cache is warm"""
+    from pyecore import ecore as E
+    rng = common.sub_rng(ctx.seed, 'C19-meta', h)
+    n = rng.randint(3, 5)
+    classes = [E.EClass(f'K{i}') for i in range(n)]
+    for i in range(1, n):
+        for j in rng.sample(range(i), rng.randint(0, min(2, i))):
+            classes[i].eSuperTypes.append(classes[j])
+    counter = [0]
+
+    def new_feature():
+        counter[0] += 1
+        if rng.random() < .5:
+            return E.EAttribute(f'g{counter[0]}', E.EString)
+        return E.EReference(f'g{counter[0]}', rng.choice(classes), containment=rng.random() < .3, upper=rng.choice([1, -1]))
+
+    for c in classes:
+        for _ in range(rng.randint(0, 2)):
+            c.eStructuralFeatures.append(new_feature())
+    log = []
+
+    def supers_of(c, seen=None):
+        out = []
+        for s_ in c.eSuperTypes:
+            if s_ not in out:
+                out.append(s_)
+            for t in supers_of(s_):
+                if t not in out:
+                    out.append(t)
+        return out
+
+    def compare(when):
+        for c in classes:
+            sup = supers_of(c)
+            want_feats = list(c.eStructuralFeatures)
+            for s_ in sup:
+                for f in s_.eStructuralFeatures:
+                    if f not in want_feats:
+                        want_feats.append(f)
+            views = {
+                'eAllSuperTypes': (set(c.eAllSuperTypes()), set(sup)),
+                'eAllStructuralFeatures': (sorted(f.name for f in c.eAllStructuralFeatures()), sorted(f.name for f in want_feats)),
+                'eAllAttributes': (sorted(f.name for f in c.eAllAttributes()), sorted(f.name for f in want_feats if isinstance(f, E.EAttribute))),
+                'eAllReferences': (sorted(f.name for f in c.eAllReferences()), sorted(f.name for f in want_feats if isinstance(f, E.EReference))),
+            }
+            for k, (got, want) in views.items():
+                if got != want:
+                    return (k, f'{c.name}.{k} is {got}, declarations say {want} ({when})')
+            names = {f'g{i}' for i in range(1, counter[0] + 1)} | {'renamed'}
+            for nm in sorted(names):
+                got = c.findEStructuralFeature(nm)
+                want = next((f for f in want_feats if f.name == nm), None)
+                if got is not want:
+                    return ('findEStructuralFeature', f'{c.name}.findEStructuralFeature({nm!r}) is {got}, declarations say {want} ({when})')
+        return None
+
+    bad = compare('initially')
+    for step in range(nedits):
+        if bad:
+            break
+        k = rng.random()
+        c = rng.choice(classes)
+        try:
+            if k < .3:
+                c.eStructuralFeatures.append(new_feature()); log.append(f'{c.name}.add-feature')
+            elif k < .55 and len(c.eStructuralFeatures):
+                f = rng.choice(list(c.eStructuralFeatures)); c.eStructuralFeatures.remove(f); log.append(f'{c.name}.remove-feature {f.name}')
+            elif k < .65 and len(c.eStructuralFeatures):
+                f = rng.choice(list(c.eStructuralFeatures)); counter[0] += 1; f.name = f'g{counter[0]}'; log.append(f'{c.name}.rename-feature')
+            elif k < .85 and len(c.eSuperTypes):
+                s_ = rng.choice(list(c.eSuperTypes)); c.eSuperTypes.remove(s_); log.append(f'{c.name}.remove-supertype {s_.name}')
+            else:
+                i = classes.index(c)
+                cands = [x for x in classes[:i] if x not in c.eSuperTypes]
+                if not cands:
+                    continue
+                s_ = rng.choice(cands); c.eSuperTypes.append(s_); log.append(f'{c.name}.add-supertype {s_.name}')
+        except Exception as e:
+            log.append(f'edit raised {type(e).__name__}')
+            break
+        ctx.evaluations += 1
+        ctx.count('meta-edit/' + log[-1].split('.')[-1].split()[0])
+        bad = compare(f'after {log[-1]}')
+    if bad:
+        ctx.violate({'clause': bad[0], 'level': 'metamodel-edit'}, f'{bad[0]}: {bad[1]}', {'edits': log, 'case': h, 'kind': 'meta-edit'})
+    ctx.traces += 1
+
+
 def run_history(ctx, h, nops, model_in, expect):
     rng = common.sub_rng(ctx.seed, 'C19', h)
     mm = tree_mm(rng) if h % 3 else store.gen_mm(rng)
@@ -103,6 +194,8 @@ def run(ctx):
     model_in, expect = [], []
     for h in range(n):
         run_history(ctx, h, nops, model_in, expect)
+    for h in range(n):
+        meta_edit_case(ctx, h, 12 if ctx.quick() else 25)
     out = common.run_driver('store', model_in)
     bad = set()
     for line, exp, got in zip(model_in, expect, out):
@@ -125,6 +218,12 @@ def search(ctx):
 def replay(ctx, data):
     common.use_repo()
     r = data['replay']
+    if r.get('kind') == 'meta-edit':
+        c2 = common.Ctx('C19', data['tier'], data['seed'])
+        meta_edit_case(c2, r['case'], 30)
+        for v in c2.violations:
+            print('  ', v['what'])
+        return 1 if c2.violations else 0
     mm = storecheck.mm_from_lines(r['metamodel'])
     w = store.World(mm, observe=False)
     bad = len(meta_views(w))
